@@ -197,18 +197,12 @@ impl ConstantFolding {
             BinaryOp::Subtract => Some(ScalarValue::Int64(left.checked_sub(right)?)),
             BinaryOp::Multiply => Some(ScalarValue::Int64(left.checked_mul(right)?)),
             BinaryOp::Divide => {
-                if right == 0 {
-                    None
-                } else {
-                    Some(ScalarValue::Int64(left / right))
-                }
+                // checked_div is None for a zero divisor and for i64::MIN / -1
+                // (the quotient does not fit): leave both to the executor.
+                Some(ScalarValue::Int64(left.checked_div(right)?))
             }
             BinaryOp::Modulo => {
-                if right == 0 {
-                    None
-                } else {
-                    Some(ScalarValue::Int64(left % right))
-                }
+                Some(ScalarValue::Int64(left.checked_rem(right)?))
             }
             BinaryOp::Eq => Some(ScalarValue::Boolean(left == right)),
             BinaryOp::NotEq => Some(ScalarValue::Boolean(left != right)),
